@@ -274,7 +274,11 @@ func (bi *BasmInstance) assembler2NewBondMachine() error {
 				}
 			}
 
-			myArch.O = uint8(Needed_bits(romCodeContrib + len(data)))
+			if cp.GetMeta("romsize") == "" {
+				myArch.O = uint8(Needed_bits(romCodeContrib + len(data)))
+			} else if romCodeContrib+len(data) > 1<<myArch.O {
+				return errors.New("romsize too small for the code and the data of " + cp.GetValue())
+			}
 			myMachine.Data.Vars = data
 
 		}
@@ -639,7 +643,7 @@ outer:
 	romCodeContrib := 0
 	if cp.GetMeta("romsize") != "" {
 		if val, err := strconv.Atoi(cp.GetMeta("romsize")); err == nil {
-			romCodeContrib = 2 ^ val
+			romCodeContrib = 1 << uint(val)
 			myArch.O = uint8(val)
 			if bi.debug {
 				fmt.Println(tabs + " - " + green("romsize (cp config): ") + yellow(cp.GetMeta("romsize")))
@@ -665,7 +669,7 @@ outer:
 
 	if cp.GetMeta("ramsize") != "" {
 		if val, err := strconv.Atoi(cp.GetMeta("ramsize")); err == nil {
-			ramCodeContrib = 2 ^ val
+			ramCodeContrib = 1 << uint(val)
 			myArch.L = uint8(val)
 			if bi.debug {
 				fmt.Println(tabs + " - " + green("ramsize (cp config): ") + yellow(cp.GetMeta("ramsize")))
@@ -730,7 +734,10 @@ outer:
 			}
 		}
 
-		myArch.O = uint8(Needed_bits(romCodeContrib + len(data)))
+		// a romsize given by the user is kept as given (checked against code + data after the assembly)
+		if cp.GetMeta("romsize") == "" {
+			myArch.O = uint8(Needed_bits(romCodeContrib + len(data)))
+		}
 	}
 
 	if ramData != "" {
@@ -753,7 +760,11 @@ outer:
 			}
 		}
 
-		myArch.L = uint8(Needed_bits(ramCodeContrib + len(data)))
+		if cp.GetMeta("ramsize") == "" {
+			myArch.L = uint8(Needed_bits(ramCodeContrib + len(data)))
+		} else if len(data) > 1<<myArch.L {
+			return nil, errors.New("ramsize too small for the data of " + cp.GetValue())
+		}
 	}
 
 	return myMachine, nil
